@@ -18,11 +18,32 @@ func classOf(t *TypeJ, v *ValJ) string {
 		return "pointer_to_named_scalar"
 	case c.zeroStruct:
 		return "zero_struct_below_pointer_or_map_in_struct_field"
+	case c.omittedNamed:
+		return "omitted_struct_field_of_named_type"
 	}
 	return ""
 }
 
-type classifier struct{ uintptr, bigFloat, ptrString, ptrNamed, zeroStruct bool }
+type classifier struct{ uintptr, bigFloat, ptrString, ptrNamed, zeroStruct, omittedNamed bool }
+
+// the type literal of t mentions a named type (so rendering it registers an import unless it is the target package's own)
+func mentionsNamed(t *TypeJ) bool {
+	switch t.K {
+	case "named":
+		return true
+	case "ptr", "slice", "array":
+		return t.Elem != nil && mentionsNamed(t.Elem)
+	case "map":
+		return (t.Key != nil && mentionsNamed(t.Key)) || (t.Elem != nil && mentionsNamed(t.Elem))
+	case "struct":
+		for i := range t.Fields {
+			if mentionsNamed(&t.Fields[i].T) {
+				return true
+			}
+		}
+	}
+	return false
+}
 
 func isScalarKind(k string) bool {
 	return k == "bool" || k == "string" || isIntKind(k) || isFloatKind(k)
@@ -102,6 +123,9 @@ func (c *classifier) walk(t *TypeJ, v *ValJ, inField, viaPM bool) {
 	case u.K == "struct":
 		if inField && viaPM && rendersEmpty(t, v) {
 			c.zeroStruct = true
+		}
+		if inField && !viaPM && rendersEmpty(t, v) && mentionsNamed(t) {
+			c.omittedNamed = true // the field is omitted from the literal: its type's packages must not be imported (fixes/C10-6)
 		}
 		for i := range v.L {
 			if i < len(u.Fields) {
